@@ -25,6 +25,11 @@ JOBS = {
                 "Helpers": '{"counter", "lag", "pacc", "dl", "nest", "acc7"}',
                 "Prods": '{"now", "mem", "delay", "proj", "let", "lett", "tup"}',
                 "SwapAt": "{0, 1, 2, 5}", "MaxSwaps": 2}),
+        # a global constant computed through a stateful call: main is re-run by the swap and must not
+        # touch (or read) the state carried over for dsp
+        ("glob3", {"Template": '"dsp"', "Budget": 3, "NSamples": 7, "Ops": '{"+"}', "GlobalSet": '"stateful"',
+                   "Helpers": '{"counter", "lag", "pacc", "dl"}', "Prods": '{"now", "mem", "delay", "proj"}',
+                   "SwapAt": "{0, 1, 3}", "MaxSwaps": 2}),
         ("dsp3in", {"Template": '"dsp"', "UseInput": "TRUE", "Budget": 3, "NSamples": 7, "Ops": '{"+", "-"}',
                     "Helpers": '{"counter", "lag", "pacc", "dl", "nest", "acc7"}',
                     "Prods": '{"now", "mem", "delay", "proj", "if"}',
